@@ -341,6 +341,7 @@ class Contract:
         self.assumes = list(d.get("assumes", []))  # free-text assumption list reported in evidence
         self.max_paths = int(d.get("max_paths", 1500))
         self.pure = bool(d.get("pure", False))
+        self.explore_s = d.get("explore_s")
         self.requires_more = [_fn(v) for k, v in d.items() if k.startswith("requires_")]
         self.args_thorough = d.get("args_thorough")
 
